@@ -7,10 +7,13 @@ T  theorems in coq/bc/C05Props.v: the decoder model inverts the encoder for ever
    state faults).
 R  correspondence: the decoder model (vm_compute) against the real InstructionReader on the bytes the
    REAL compiler emitted (instruction by instruction, operands by field name).
-D  the property's clauses on the implementation's output: `wf_chunk` (the proved verifier) evaluated on
-   every real chunk; builder/try balance (clause 5) by a dataflow over the real reader's instruction
-   list; no panic / internal fault when compiling or running; byte-identical recompilation in one
-   process and across processes.
+D  the property's clauses on the implementation's output: `wf_chunk` (clauses 1-4) and `depths_ok`
+   (clause 5), both proved sound, evaluated on every real chunk (depths_ok cross-checked against an
+   independent Python dataflow over the real reader's instruction list); no panic / internal fault when
+   compiling or running; size limits reported as compile errors exactly at the limit (calibrated
+   65530..65540-byte backward and forward offsets, 249..513 locals); byte-identical recompilation of EVERY
+   program in one process and across processes.
+Open known class: C05d only (C05a/b/c/e are fixed in /repo and suppress nothing).
 """
 import json
 import os
@@ -574,9 +577,9 @@ def calibrate(results):
 
 def jump_scaled(tier, ovh):
     """programs whose backward (loop/while/until/for) and forward (if, function size) u16 offsets are
-    exactly 65530..65540 (quick: 65534..65537)"""
+    exactly 65530..65540 (quick: 65535 and 65536)"""
     out = []
-    targets = range(65534, 65538) if tier == "quick" else range(65530, 65541)
+    targets = range(65535, 65537) if tier == "quick" else range(65530, 65541)
     for kind, (pre, post) in LOOP_KINDS.items():
         for t in targets:
             out.append({"tag": f"{kind}-back-{t}", "src": pre + filler(t - ovh[kind]) + post, "intended": t,
@@ -947,7 +950,7 @@ def run(tier, seed):
           "are hand-modelled and pinned by source hash",
           "coq/bc/AbsVM.v: the operand-role table (which operands index registers / constants / jump) and the successor "
           "relation are a hand abstraction of vm.rs (specification, tied only by running programs)",
-          "kh_bc (Rust harness) and checks/c05.py (comparison, clause-5 dataflow, determinism comparison)"]
+          "kh_bc (Rust harness) and checks/c05.py (comparison, size calibration, determinism comparison)"]
     return chk.finish(
         rule="programs: committed corpus + /repo's .koto files, fenced koto doc examples and script literals of the Rust tests "
              "+ single-token delete/duplicate/swap neighbours + seeded generated programs over all statement kinds + size-scaled "
